@@ -131,7 +131,14 @@ def _inline(text):
 
 DOCS.update({k + "@inline": _inline(v) for k, v in list(DOCS.items()) if not k.endswith("inline")})
 DOCS14.update({k + "@inline": _inline(v) for k, v in list(DOCS14.items())})
-ALL_DOCS = dict(DOCS, **DOCS14)
+# a let layer with several names, edited in place through scoped paths between lookups (the layer object lives as long as the
+# document: anything remembered about positions in it must survive removals and additions that keep its length)
+DOCS_LAYER = {
+    "let-four": 'let\n  first = 1;\n  second = 2;\n  third = 3;\nin\n{\n  a = second;\n  b = third;\n  c = first;\n}\n',
+}
+OPS_LAYER = [("read", "a"), ("read", "b"), ("read", "c"), ("rm", "@first"), ("rm", "@second"), ("set", "@fourth", "4"), ("set", "@first", "9"),
+             ("set", "a", "7"), ("set", "b", "8")]
+ALL_DOCS = dict(DOCS, **DOCS14, **DOCS_LAYER)
 
 
 def scripts(tier, docs=None, alphabet=None):
@@ -146,6 +153,7 @@ def run(prop, tier, seed):
     items = list(scripts(tier, DOCS14, OPS14)) if prop == "C14" else list(scripts(tier))
     if prop != "C14":
         items += [(d, list(c)) for d in ("rec-plain", "rec-plain-inline") for c in itertools.product(OPS4, repeat=4)]
+        items += [(d, list(c)) for d in DOCS_LAYER for c in itertools.product(OPS_LAYER, repeat=4)]
     with mp.get_context("fork").Pool(16) as pool:
         res = pool.map(eval_script, items, chunksize=64)
     vio = {}
